@@ -150,7 +150,7 @@ func genUniverse(c *simrt.Choices, g genCfg) *Universe {
 			}
 		}
 		// outputs
-		switch c.Choose(7, "outs-kind") {
+		switch c.Choose(9, "outs-kind") {
 		case 0:
 			s.Outs = []OutSpec{{Kind: "file", Path: "out/" + s.Name + ".out"}}
 		case 1:
@@ -168,6 +168,14 @@ func genUniverse(c *simrt.Choices, g genCfg) *Universe {
 				s.Outs = []OutSpec{{Kind: "bin", Path: "out/" + s.Name + ".bin"}}
 			} else {
 				s.Outs = []OutSpec{{Kind: "file", Path: "out/" + s.Name + ".out"}}
+			}
+		case 7:
+			s.Outs = []OutSpec{{Kind: "file", Path: "out/" + s.Name + ".a.out"}, {Kind: "file", Path: "out/" + s.Name + ".b.out"}, {Kind: "file", Path: s.Name + ".c.out"}}
+		case 8:
+			if g.Features["dirs"] && g.Features["bin"] {
+				s.Outs = []OutSpec{{Kind: "dir", Path: "out/" + s.Name + "_d", Tree: genTree(c)}, {Kind: "bin", Path: "out/" + s.Name + ".bin"}}
+			} else {
+				s.Outs = []OutSpec{{Kind: "file", Path: "out/" + s.Name + ".out"}, {Kind: "file", Path: "out/" + s.Name + ".b.out"}}
 			}
 		case 5:
 			s.Outs = nil // output-less target (file group)
